@@ -164,7 +164,11 @@ func isAtom(t string) bool {
 	if t == "" {
 		return true
 	}
-	if t[0] == '(' || t[0] == '"' {
+	if t[0] == '"' {
+		// a string literal (quotes inside are doubled): atomic
+		return len(t) >= 2 && t[len(t)-1] == '"' && strings.Count(t, "\"")%2 == 0
+	}
+	if t[0] == '(' {
 		return false
 	}
 	return !strings.ContainsAny(t, " ")
